@@ -4,8 +4,9 @@ Engine E4: seeded histories of OpenMP-only or OpenACC-only directive
 transformations (interleaved with a few structure-changing ones) on
 generated modules.  After the history the real FortranWriter either refuses
 or must emit text that satisfies the three structural rules the property
-names (own scanner) and is accepted by gfortran -fopenmp/-fopenacc
--fsyntax-only as far as directives are concerned.  DESIGN 4.8.
+names (own scanner) and is accepted by gfortran -fopenmp/-fopenacc (compiled
+to a discarded object so that the middle end's nesting checks run) as far as
+directives are concerned.  DESIGN 4.8.
 """
 import re
 
@@ -30,9 +31,9 @@ RULE = ("Seeded modules (richgen) x histories of <=7 accepted-or-refused "
 REAL_VS_STUB = {
     "fparser2 front end, PSyIR, directive transformations, "
     "validate_global_constraints, FortranWriter": "real code from /repo",
-    "OpenMP/OpenACC-aware compiler": "real gfortran 12 -fsyntax-only used "
-                                     "as a validity oracle (nothing is "
-                                     "executed)",
+    "OpenMP/OpenACC-aware compiler": "real gfortran 12 (-c -O0 to a "
+                                     "discarded object) used as a validity "
+                                     "oracle (nothing is executed)",
     "scheduler/clock": "none (single-threaded history; the refusal is the "
                        "only fault)"}
 ASSUMPTIONS = [
@@ -190,7 +191,8 @@ def judge(root):
     if bad:
         return {"class": "writer-emitted-invalid-structure:" + bad[0],
                 "observed": {"detail": bad[1], "text": text}}, "text"
-    errs, _ = gfcheck.compile_text(text, ["-fopenmp", "-fopenacc"])
+    errs, _ = gfcheck.compile_text(text, ["-fopenmp", "-fopenacc"],
+                                   full=True)
     derrs = [e for e in errs if gfcheck.is_directive_error(e)]
     if derrs:
         msg = re.sub(r"\(\d+\)", "(N)", derrs[0][0])
